@@ -10,6 +10,7 @@ child started / state / picker / init timer) and on the pickers it sent to the p
   P3 below a READY child nothing is started
   P4 the state last sent to the parent is the state (connectivity + picker) of the child in use
   P5 an init timer is armed only for a started child that has not failed since it was last READY/IDLE
+  P6 a child keeps its init timer for its whole initial connection timeout unless it reports READY/IDLE/TF or is restarted
 -/
 namespace GrpcModel.Driver.S_priority
 open GrpcModel.Driver GrpcModel.Priority
@@ -41,7 +42,7 @@ def sortEvs (l : List Ev) : List Ev := l.foldl (fun acc e => insEv e acc) []
 def render (s : St) : String :=
   let use := match s.inUse with | none => "-" | some n => toString n
   s!"use={use} pr={joinOr (s.prios.map toString) ","} ch={joinOr (s.children.map showChild) ","}"
-    ++ s!" up={joinOr (s.ups.map fun p => s!"{p.conn}/{showPk p.pk}") ";"} ev={joinOr ((sortEvs s.evs).map showEv) ";"}"
+    ++ s!" up={joinOr (s.ups.map fun p => s!"{p.conn}/{showPk p.pk}") ";"} ev={joinOr ((sortEvs s.evs).map showEv) ";"} pend={s.pending.length}"
 
 /-! ### parsing -/
 
@@ -71,14 +72,16 @@ structure PLine where
   prios : List Nat
   children : List Child
   ups : List PState
+  uccs : List Nat     -- children that were sent UpdateClientConnState during the op
 deriving Repr
 
 def parseLine (l : String) : Option PLine :=
   match l.splitOn " " with
-  | [u, pr, ch, up, _] => do
+  | [u, pr, ch, up, ev, _] => do
     let use := if valOf u = "-" then none else (valOf u).toNat?
     pure { use := use, prios := ← parseList String.toNat? "," (valOf pr), children := ← parseList parseChild "," (valOf ch),
-           ups := ← parseList parseUp ";" (valOf up) }
+           ups := ← parseList parseUp ";" (valOf up), uccs := ((valOf ev).splitOn ";").filterMap fun e =>
+             match e.splitOn ":" with | ["U", n] => n.toNat? | _ => none }
   | _ => none
 
 /-! ### monitors -/
@@ -140,7 +143,31 @@ def monitor (p : PLine) (lastUp : Option PState) : Option String :=
 structure DSt where
   s : St := {}
   lastUp : Option PState := none   -- last state the IMPLEMENTATION sent to the parent
+  hold : Bool := false
+  prevCh : List Child := []        -- the implementation's children after the previous op
+  armed : List (Nat × Int) := []   -- per child: a time at or before which its current init timer was armed (observed)
 deriving Repr
+
+/-- P6: a started child that did not report in this op and was not (re)sent its config loses its init
+    timer only once the timer's deadline has passed: it stays usable for its whole initial
+    connection timeout.  `armed` is a lower bound of the arming time observed on the implementation. -/
+def monTimer (prev : List Child) (armed : List (Nat × Int)) (now : Int) (reporting : Option Nat) (p : PLine) : Option String :=
+  p.children.findSome? fun c =>
+    match prev.find? (·.name = c.name), armed.find? (·.1 = c.name) with
+    | some c0, some (_, t0) =>
+      if c0.timer.isSome && c0.started && c.started && c.timer.isNone && reporting != some c.name
+          && !p.uccs.contains c.name && decide (now < t0 + initTimeout) then
+        some s!"child {c.name} lost its init timer at {now} although it was armed at or after {t0} (timeout {initTimeout} ms), did not report and was not restarted: it is still within its initial connection timeout"
+      else none
+    | _, _ => none
+
+def updArmed (prev : List Child) (armed : List (Nat × Int)) (opStart : Int) (p : PLine) : List (Nat × Int) :=
+  p.children.filterMap fun c =>
+    if c.timer.isSome then
+      match prev.find? (·.name = c.name), armed.find? (·.1 = c.name) with
+      | some c0, some a => if c0.timer.isSome then some a else some (c.name, opStart)
+      | _, _ => some (c.name, opStart)
+    else none
 
 def parseKid (s : String) : Option (Nat × Nat) :=
   match s.splitOn ":" with
@@ -149,11 +176,11 @@ def parseKid (s : String) : Option (Nat × Nat) :=
     if t = "A" then some (n, 0) else if t = "B" then some (n, 1) else none
   | _ => none
 
-def mstep (s : St) (fs : List String) : St × Option String :=
+def mstep (hold : Bool) (s : St) (fs : List String) : St × Option String :=
   match fs with
   | ["cfg", pr, kids] =>
     match parseList String.toNat? "," pr, parseList parseKid "," kids with
-    | some pr, some kids => (step s (.update pr kids), none)
+    | some pr, some kids => (GrpcModel.Priority.step s (.update pr kids), none)
     | _, _ => (s, some "bad-op")
   | ["child", n, c] =>
     match n.toNat?, c.toNat? with
@@ -165,21 +192,25 @@ def mstep (s : St) (fs : List String) : St × Option String :=
     | _, _ => (s, some "bad-op")
   | ["sleep", d] =>
     match d.toNat? with
-    | some d => (sleepTo (4 * (s.children.length + s.sbs.length) + 8) (clearOut s) (s.now + d), none)
+    | some d => (sleepTo hold (4 * (s.children.length + s.sbs.length) + 8) (clearOut s) (s.now + d), none)
     | none => (s, some "bad-op")
+  | ["hold", _] => (clearOut s, none)
+  | ["release"] => if s.pending.isEmpty then (s, some "noparked") else (GrpcModel.Priority.step s .runcb, none)
   | _ => (s, some "bad-op")
 
 def step : Step DSt := fun d fs impl =>
-  let (s', err) := mstep d.s fs
+  let (s', err) := mstep d.hold d.s fs
+  let hold := match fs with | ["hold", b] => b = "1" | _ => d.hold
   match err with
-  | some e => ({ d with s := s' }, e, "-")
+  | some e => ({ d with s := s', hold := hold }, e, "-")
   | none =>
     match parseLine impl with
-    | none => ({ d with s := s' }, render s', "-")
+    | none => ({ d with s := s', hold := hold }, render s', "-")
     | some p =>
       let lastUp := match p.ups.getLast? with | some u => some u | none => d.lastUp
-      let v := match monitor p lastUp with | some m => "VIOL " ++ m | none => "ok"
-      ({ s := s', lastUp := lastUp }, render s', v)
+      let reporting := match fs with | ["child", n, _] => n.toNat? | _ => none
+      let v := match monitor p lastUp <|> monTimer d.prevCh d.armed s'.now reporting p with | some m => "VIOL " ++ m | none => "ok"
+      ({ s := s', lastUp := lastUp, hold := hold, prevCh := p.children, armed := updArmed d.prevCh d.armed d.s.now p }, render s', v)
 
 def run : IO Unit := Driver.run ({} : DSt) step
 
